@@ -10,6 +10,7 @@ occur in these sequential models; `roundtrip_every_wc` composes the round trip w
 (every wc, every interleaving) through `Hts.Model.WriterCompose`; the reader's rd is owned by C02
 (`readahead_refines_sequential`, not composed here) and is checked here by correspondence.
 -/
+import Hts.Lemmas.BgzfBytesMember
 import Hts.Lemmas.BgzfWriter
 import Hts.Lemmas.BgzfSeqRead
 import Hts.Lemmas.BgzfStream
@@ -175,6 +176,74 @@ theorem roundtrip (c : Codec) (h : Header) (hr : ReaderOK h) (wops : List (Op By
     have := reader_prefix (b :: bs) ⟨b, bs, false⟩ rfl rops
     rw [this, ← hem', hflat]
 
+/-! ### the round trip through C10's byte-level reader model, and the io.EOF clause -/
+
+open Member in
+/-- The reader half on the byte-level reader model of C10 (`Hts.Model.BgzfBytes`, which is driven against
+bgzf.Reader on arbitrary byte strings): for every lawful codec, every header gzip.Reader accepts, every script
+with a Close that returned nil, `NewReader` + `Read`… over the produced BYTES deliver exactly the accepted
+payloads and then the clean io.EOF (no other terminal error), for the repaired and the unrepaired reader alike. -/
+theorem roundtrip_bytes (q : BgzfBytes.Quirks) (c : Codec) (h : Header) (hr : ReaderOK h) (wops : List (Op Byte))
+    (hclose : hasClose wops = true) (hok : (closeOutput c.toCodecFns h (after wops).emitted).2 = none) :
+    BgzfBytes.readAll q (toBytesCodec c.toCodecFns) (closeOutput c.toCodecFns h (after wops).emitted).1 =
+      (accepted wops, .eof) := by
+  have hcl : (after wops).closed = true := by rw [writer_closed_iff, hclose]
+  obtain ⟨_, _, hcb⟩ := writer_blocks wops
+  obtain ⟨hact, pre, last, hem, hpre, hlast⟩ := hcb hcl
+  have hrn : (render c.toCodecFns h (after wops).emitted).2 = none := by
+    simpa only [closeOutput_eq] using hok
+  have hw := (render_snd_none _ _ _).mp hrn
+  have hout : (closeOutput c.toCodecFns h (after wops).emitted).1 =
+      (((after wops).emitted.map (mb c.toCodecFns h)).flatten ++ magicBlock) := by
+    simp only [closeOutput_eq, render_fst, hrn, hw, if_true]
+  have hfits : ∀ p ∈ (after wops).emitted, Fits c.toCodecFns h p ∧ p.length ≤ BgzfWriter.MaxBlockSize := by
+    intro p hp
+    refine ⟨by have := written_fits c.toCodecFns h (after wops).emitted p; rw [hw] at this; exact this hp, ?_⟩
+    rw [hem] at hp
+    rcases List.mem_append.mp hp with h' | h'
+    · have := (hpre p h').2; simp [BlockSize, MaxBlockSize] at this ⊢; omega
+    · simp at h'; subst h'; simp [BlockSize, MaxBlockSize] at hlast ⊢; omega
+  rw [hout, readAll_closed q c h hr _ hfits]
+  have := writer_flatten wops
+  rw [hact] at this
+  simp only [List.append_nil] at this
+  rw [this]
+
+open Member in
+/-- default header, codec within the bound: every script with a Close, read by C10's byte-level model -/
+theorem roundtrip_bytes_default (q : BgzfBytes.Quirks) (c : Codec) (hb : Bounded c.toCodecFns) (wops : List (Op Byte))
+    (hclose : hasClose wops = true) :
+    BgzfBytes.readAll q (toBytesCodec c.toCodecFns) (closeOutput c.toCodecFns {} (after wops).emitted).1 =
+      (accepted wops, .eof) :=
+  roundtrip_bytes q c {} ⟨by simp, by simp⟩ wops hclose (default_output_ok c.toCodecFns hb wops hclose)
+
+open Member BgzfSeqRead in
+/-- The io.EOF clause of the round trip, for every read history: on the blocks the reader meets in the produced
+stream, a short or empty result comes only with io.EOF; a call that returns io.EOF has completed the accepted
+payloads; and once everything has been asked for, the next call returns no byte and io.EOF. -/
+theorem roundtrip_eof (c : Codec) (h : Header) (hr : ReaderOK h) (wops : List (Op Byte)) (hclose : hasClose wops = true)
+    (hok : (closeOutput c.toCodecFns h (after wops).emitted).2 = none)
+    (blocks : List (List Byte)) (r0 : BgzfSeqRead.State Byte)
+    (hrs : readStream c.toCodecFns (closeOutput c.toCodecFns h (after wops).emitted).1 = some blocks)
+    (hinit : BgzfSeqRead.init blocks = some r0) (pre : List BgzfSeqRead.Op) (op : BgzfSeqRead.Op) :
+    let r := BgzfSeqRead.step (BgzfSeqRead.run r0 pre).1 op
+    (r.2.1.length < op.want → r.2.2 = true) ∧
+    (r.2.2 = true → delivered (BgzfSeqRead.run r0 pre).2 ++ r.2.1 = accepted wops) ∧
+    ((accepted wops).length ≤ (pre.map Op.want).sum → r.2 = ([], true)) := by
+  obtain ⟨blocks', _, hrs', _, hflat, _⟩ := roundtrip c h hr wops hclose hok
+  rw [hrs] at hrs'
+  cases hrs'
+  obtain ⟨e1, e2⟩ := reader_eof_complete blocks r0 hinit pre op
+  obtain ⟨f1, f2⟩ := reader_flat blocks r0 hinit pre op
+  simp only at e1 e2 f1 f2 ⊢
+  rw [hflat] at e2 f1 f2
+  refine ⟨e1, e2, fun hle => ?_⟩
+  have hnil : (accepted wops).drop (pre.map Op.want).sum = [] := List.drop_eq_nil_of_le hle
+  rw [hnil] at f1 f2
+  have h2 : (step (BgzfSeqRead.run r0 pre).1 op).2.2 = true := f2.mpr (Or.inr rfl)
+  have h1 : (step (BgzfSeqRead.run r0 pre).1 op).2.1 = [] := by rw [f1]; simp
+  exact Prod.ext h1 h2
+
 open Member in
 /-- With the writer's default header and a codec within zlib's deflateBound (what `compressBound`
 relies on), no block of at most BlockSize bytes is ever refused. -/
@@ -267,5 +336,9 @@ example : Member.ReaderOK { name := [0x66, 0xe9], comment := [1] } := ⟨by deci
 /-- an instance of the round trip for a concrete script and the toy codec -/
 example := roundtrip_default Member.Toy.codec Member.Toy.bounded
   [Op.write [1, 2, 3], Op.flush, Op.write [], Op.write [4], Op.wait, Op.close] rfl
+
+/-- an instance of the byte-level round trip -/
+example := roundtrip_bytes_default .repaired Member.Toy.codec Member.Toy.bounded
+  [Op.write [1, 2, 3], Op.flush, Op.write [4], Op.close] rfl
 
 end Hts.Props.C01
